@@ -41,6 +41,10 @@ theorem tie_h_fcache_Cache_Invalidate : Extracted.Hist.h_fcache_Cache_Invalidate
 theorem tie_h_fcache_Cache_Load : Extracted.Hist.h_fcache_Cache_Load = Canon.Hist.h_fcache_Cache_Load := by decide +kernel
 theorem tie_h_fcache_Cache_evict : Extracted.Hist.h_fcache_Cache_evict = Canon.Hist.h_fcache_Cache_evict := by decide +kernel
 theorem tie_h_fcache__newEntry : Extracted.Hist.h_fcache__newEntry = Canon.Hist.h_fcache__newEntry := by decide +kernel
+theorem tie_h_rest_hist_persistence_jsondb_jsondb_go : Extracted.Hist.h_rest_hist_persistence_jsondb_jsondb_go = Canon.Hist.h_rest_hist_persistence_jsondb_jsondb_go := by decide +kernel
+theorem tie_h_rest_hist_persistence_jsondb_writer_go : Extracted.Hist.h_rest_hist_persistence_jsondb_writer_go = Canon.Hist.h_rest_hist_persistence_jsondb_writer_go := by decide +kernel
+theorem tie_h_rest_hist_persistence_filecache_filecache_go : Extracted.Hist.h_rest_hist_persistence_filecache_filecache_go = Canon.Hist.h_rest_hist_persistence_filecache_filecache_go := by decide +kernel
+theorem tie_h_rest_hist_persistence_model_status_go : Extracted.Hist.h_rest_hist_persistence_model_status_go = Canon.Hist.h_rest_hist_persistence_model_status_go := by decide +kernel
 theorem tie_dateFormat : Extracted.Hist.dateFormat = Canon.Hist.dateFormat := by decide +kernel
 theorem tie_dateTimeFormat : Extracted.Hist.dateTimeFormat = Canon.Hist.dateTimeFormat := by decide +kernel
 theorem tie_extDat : Extracted.Hist.extDat = Canon.Hist.extDat := by decide +kernel
@@ -86,6 +90,10 @@ theorem tie_requestIDLenSafe : Extracted.Hist.requestIDLenSafe = Canon.Hist.requ
 #print axioms tie_h_fcache_Cache_Load
 #print axioms tie_h_fcache_Cache_evict
 #print axioms tie_h_fcache__newEntry
+#print axioms tie_h_rest_hist_persistence_jsondb_jsondb_go
+#print axioms tie_h_rest_hist_persistence_jsondb_writer_go
+#print axioms tie_h_rest_hist_persistence_filecache_filecache_go
+#print axioms tie_h_rest_hist_persistence_model_status_go
 #print axioms tie_dateFormat
 #print axioms tie_dateTimeFormat
 #print axioms tie_extDat
